@@ -53,7 +53,7 @@ ASSUMPTIONS = [
 TEMPLATES = ['define', 'read_other', 'unset_then_set', 'rebind_G', 'read_G', 'leave_skip', 'leave_requires', 'leave_ndiff',
              'leave_ignore_want', 'leave_noellipsis', 'wrong_want', 'replace_stdout', 'filter_error', 'warn', 'phase_unmatched',
              'fails_late', 'needs_ellipsis', 'filter_error_then_fail', 'global_exec_mutate', 'quoted_ellipsis_strict',
-             'quoted_ellipsis_plain', 'all_skipped', 'half_skipped']
+             'quoted_ellipsis_plain', 'all_skipped', 'half_skipped', 'spawn_task', 'await_sleep']
 LEAVES_ON = {'quoted_ellipsis_strict', 'all_skipped', 'half_skipped', 'filter_error_then_fail', 'global_exec_mutate', 'leave_skip', 'leave_requires', 'leave_ndiff', 'leave_ignore_want', 'leave_noellipsis', 'filter_error', 'replace_stdout',
              'define', 'rebind_G', 'phase_unmatched', 'fails_late'}
 PHASE_VAR = 'VP_PHASE'
@@ -107,6 +107,14 @@ def template_lines(t, k):
         return [">>> print('h{}')".format(k), 'h{}'.format(k), ">>> print('never')  # xdoctest: +SKIP", 'wrong', ">>> print('again')", 'again']
     if t == 'filter_error_then_fail':
         return ['>>> import warnings', ">>> warnings.simplefilter('error')", ">>> raise LookupError('after changing the filters')"]
+    if t == 'spawn_task':
+        # leaves a task pending on the event loop when the part (and the doctest) ends: it is not this doctest's business
+        # any more afterwards, and must never get to run during somebody else's doctest
+        return ['>>> import asyncio', '>>> async def _bg():', '...     await asyncio.sleep(0.001)', "...     print('leftover of {}')".format(k),
+                '>>> async def _spawn():', '...     return asyncio.ensure_future(_bg())', '>>> _task = await _spawn()', ">>> print('spawned')",
+                'spawned']
+    if t == 'await_sleep':
+        return ['>>> import asyncio', ">>> print(await asyncio.sleep(0.02, result='slept {}'))".format(k), 'slept {}'.format(k)]
     if t == 'global_exec_mutate':
         # SEEN is created by the global_exec preamble ("code executed before every test"): each doctest gets its own
         return ['>>> SEEN.append({})'.format(k), '>>> print(SEEN)', '[{}]'.format(k)]
@@ -161,6 +169,10 @@ def expected(t, k, phase):
         return 'failed', 'LookupError', ''
     if t == 'global_exec_mutate':
         return 'passed', None, '[{}]\n'.format(k)
+    if t == 'spawn_task':
+        return 'passed', None, 'spawned\n'
+    if t == 'await_sleep':
+        return 'passed', None, 'slept {}\n'.format(k)
     raise KeyError(t)
 
 
@@ -226,11 +238,16 @@ class World(object):
         exp_outcome, exp_exc, exp_stdout = expected(t, i + 100, self.phase)
         raised = None
         summary = None
-        with sandbox.quiet_io():      # (not quiet(): that would restore the warning filters and hide a leak)
+        with sandbox.quiet_io() as (out, err):      # (not quiet(): that would restore the warning filters and hide a leak)
             try:
                 summary = ex.run(on_error=on_error, verbose=verbose)
             except Exception as e:   # noqa
                 raised = e
+            # every run happens under a stream of its own: afterwards that very stream is back in place
+            streams = (sys.stdout is out, sys.stderr is err)
+        if streams != (True, True):
+            self.fail('stream_not_restored:' + t, 'after running t{} ({}) sys.stdout / sys.stderr are the ones the run started under: {}'.format(
+                i, t, streams))
         self.n_runs += 1
         if summary is not None:
             oc = 'passed' if summary['passed'] else ('failed' if summary['failed'] else ('skipped' if summary['skipped'] else '?'))
@@ -291,8 +308,11 @@ class World(object):
         from xdoctest import doctest_example
         config = doctest_example.DoctestConfig()
         config.update(self.shared_config)
-        with sandbox.quiet_io():
+        with sandbox.quiet_io() as (out, err):
             rs = xdoctest.doctest_module(self.path, command='all', argv=[], style='google', verbose=verbose, config=config)
+            streams = (sys.stdout is out, sys.stderr is err)
+        if streams != (True, True):
+            self.fail('stream_not_restored:module', 'after doctest_module sys.stdout / sys.stderr are the ones the run started under: {}'.format(streams))
         self.n_runs += len(self.templates)
         exp = [expected(t, i + 100, self.phase)[0] for i, t in enumerate(self.templates)]
         want = (exp.count('passed'), exp.count('failed'), exp.count('skipped'))
@@ -477,6 +497,8 @@ def fixed_histories(ctx):
          [['run', i, 0] for i in range(8)] + [['module', 0], ['module', 1]] + [['run', i, 0] for i in (5, 6, 7)]),
         (['phase_unmatched'], [['run', 0, 0], ['phase', 2], ['run', 0, 0], ['phase', 1], ['run', 0, 0], ['phase', 2], ['fresh', 0, 0, 'return']]),
         (['fails_late', 'define'], [['run', 0, 0], ['run', 0, 0], ['run', 1, 0], ['run', 0, 3]]),
+        (['spawn_task', 'await_sleep', 'define'], [['run', 0, 0], ['run', 1, 0], ['run', 2, 0], ['fresh', 0, 0, 'raise'], ['fresh', 1, 1, 'raise'],
+                                                   ['module', 0], ['run', 1, 0]]),
         (['filter_error', 'warn', 'replace_stdout', 'define'], [['run', 0, 0], ['run', 1, 0], ['run', 2, 0], ['run', 3, 0], ['module', 0]]),
         (T, [['module', 0], ['phase', 2], ['module', 1], ['phase', 1], ['module', 3]]),
     ]
